@@ -57,6 +57,49 @@ struct LoopCase {
     forms: u64,
     knobs: Knobs,
     slice_budget: Option<usize>,
+    /// shape of the loop's back edge (see `loop_definition`)
+    driver: String,
+}
+
+pub const DRIVERS: [&str; 5] = ["named-let", "callcc-backedge", "mutual-tail", "apply-tail", "do-nothing-but-builtins"];
+
+/// The loop that runs the garbage expression n times. The back edge differs: a tail call of a
+/// named-let procedure; the re-entry of a continuation captured once (no procedure is entered
+/// in an iteration unless the garbage expression does so itself); two procedures calling each
+/// other in tail position; a tail call through apply; a continuation back edge whose counter
+/// lives in a vector (no set! of a global either).
+fn loop_definition(driver: &str, garbage: &str) -> Vec<String> {
+    match driver {
+        "callcc-backedge" => vec![
+            "(define i 0)".to_string(),
+            "(define %back #f)".to_string(),
+            format!(
+                "(define (%garbage-loop n) (set! i 0) (call/cc (lambda (c) (set! %back c))) (set! i (+ i 1)) {} (if (< i n) (%back #f) 'done))",
+                garbage
+            ),
+        ],
+        "do-nothing-but-builtins" => vec![
+            "(define i 0)".to_string(),
+            "(define %cell (vector 0 #f))".to_string(),
+            format!(
+                "(define (%garbage-loop n) (vector-set! %cell 0 0) (vector-set! %cell 1 (call/cc (lambda (c) c)))                  (vector-set! %cell 0 (+ (vector-ref %cell 0) 1)) (set! i (vector-ref %cell 0)) {} (if (< (vector-ref %cell 0) n) ((vector-ref %cell 1) (vector-ref %cell 1)) 'done))",
+                garbage
+            ),
+        ],
+        "mutual-tail" => vec![
+            format!("(define (%ping i n) (if (< i n) (begin {} (%pong (+ i 1) n)) 'done))", garbage),
+            format!("(define (%pong i n) (if (< i n) (begin {} (%ping (+ i 1) n)) 'done))", garbage),
+            "(define (%garbage-loop n) (%ping 0 n))".to_string(),
+        ],
+        "apply-tail" => vec![
+            format!("(define (%spin i n) (if (< i n) (begin {} (apply %spin (+ i 1) (list n))) 'done))", garbage),
+            "(define (%garbage-loop n) (%spin 0 n))".to_string(),
+        ],
+        _ => vec![format!(
+            "(define (%garbage-loop n) (let loop ((i 0)) (if (< i n) (begin {} (loop (+ i 1))) 'done)))",
+            garbage
+        )],
+    }
 }
 
 impl LoopCase {
@@ -64,7 +107,7 @@ impl LoopCase {
         json!({
             "loop": {
                 "kind": self.kind, "live": self.live, "n": self.n, "factor": self.factor, "forms": self.forms,
-                "slice_budget": self.slice_budget,
+                "slice_budget": self.slice_budget, "driver": self.driver,
                 "knobs": {"slot_order_seed": self.knobs.slot_order_seed, "heap_chunk": self.knobs.heap_chunk}
             }
         })
@@ -78,6 +121,7 @@ impl LoopCase {
             factor: l["factor"].as_u64().unwrap_or(10),
             forms: l["forms"].as_u64().unwrap_or(1),
             slice_budget: l["slice_budget"].as_u64().map(|b| b as usize),
+            driver: l["driver"].as_str().unwrap_or("named-let").to_string(),
             knobs: Knobs {
                 slot_order_seed: l["knobs"]["slot_order_seed"].as_u64().unwrap_or(0),
                 heap_chunk: l["knobs"]["heap_chunk"].as_u64().unwrap_or(8192) as usize,
@@ -114,11 +158,8 @@ fn run_loop(c: &LoopCase, iterations: u64) -> Result<LoopRun, String> {
         "(define %last-k #f)".to_string(),
         "(define (%mk n) (let loop ((i 0) (acc '())) (if (< i n) (loop (+ i 1) (cons (vector i (number->string i)) acc)) acc)))".to_string(),
         format!("(define %live (%mk {}))", c.live),
-        format!(
-            "(define (%garbage-loop n) (let loop ((i 0)) (if (< i n) (begin {} (loop (+ i 1))) 'done)))",
-            garbage_expr(&c.kind)
-        ),
     ];
+    setup.extend(loop_definition(&c.driver, garbage_expr(&c.kind)));
     // warm-up: global names the loop introduces exist before measuring
     setup.push("(%garbage-loop 2)".to_string());
     for f in &setup {
@@ -223,10 +264,10 @@ fn eval_loop(c: &LoopCase) -> LoopEval {
                 if y > x {
                     let _ = third;
                     v = Some((
-                        format!("C12 growth {} kind={}", name, c.kind),
+                        format!("C12 growth {} kind={} driver={}", name, c.kind, c.driver),
                         format!(
-                            "garbage loop kind={} live={} forms={} slice={:?} chunk={}: {} after n={} iterations: {}, after {}n: {}\n  n: {:?}\n  {}n: {:?}",
-                            c.kind, c.live, c.forms, c.slice_budget, c.knobs.heap_chunk, name, c.n, x, c.factor, y, a.res, c.factor, b.res
+                            "garbage loop kind={} driver={} live={} forms={} slice={:?} chunk={}: {} after n={} iterations: {}, after {}n: {}\n  n: {:?}\n  {}n: {:?}",
+                            c.kind, c.driver, c.live, c.forms, c.slice_budget, c.knobs.heap_chunk, name, c.n, x, c.factor, y, a.res, c.factor, b.res
                         ),
                     ));
                     break;
@@ -286,6 +327,25 @@ pub fn run(tier: Tier, seed: u64, ev: &mut Evidence) -> Vec<Violation> {
                         heap_chunk: chunk,
                     },
                     slice_budget,
+                    driver: "named-let".to_string(),
+                });
+            }
+        }
+        // every other back-edge shape, for the kinds whose garbage expression enters no procedure
+        // and for two that do
+        for driver in DRIVERS.iter().skip(1) {
+            for kind in ["pairs", "vectors", "strings", "symbols", "bignums", "closures", "continuations"] {
+                let chunk = *rng.pick(&[8192usize, 8192, 4096, 16384, 2048]);
+                let slice_budget = if rng.chance(1, 4) { Some(rng.range(9000, 50000) as usize) } else { None };
+                cases.push(LoopCase {
+                    kind: kind.to_string(),
+                    live: *rng.pick(&[0u64, 10, 1000]),
+                    n: *n,
+                    factor: 10,
+                    forms: *rng.pick(&[1u64, 1, 3]),
+                    knobs: Knobs { slot_order_seed: 0, heap_chunk: chunk },
+                    slice_budget,
+                    driver: driver.to_string(),
                 });
             }
         }
@@ -319,6 +379,7 @@ pub fn run(tier: Tier, seed: u64, ev: &mut Evidence) -> Vec<Violation> {
     }
     ev.distinct_nontrivial = distinct.len() as u64;
     ev.extra.insert("garbage_kinds".into(), json!(KINDS));
+    ev.extra.insert("loop_drivers".into(), json!(DRIVERS));
     ev.extra.insert("loop_iteration_counts".into(), json!(loop_ns));
     ev.assumptions.push("'bounded by live data' is decided as: no monitored resource is larger after 10n iterations than after n (n past warm-up)".into());
     violations
